@@ -138,7 +138,7 @@ def stateJson (cfg : Cfg) (s : State) : Json :=
   Json.mkObj [
     ("now", .num s.now), ("rt", .str (rtName s.rt)), ("sc", .str (scName s.sc)),
     ("started", .bool s.started), ("ready", .bool s.ready), ("acts", .num s.acts),
-    ("startupDone", .bool s.startupDone), ("startupFailed", .bool s.startupFailed),
+    ("startupDone", .bool s.startupDone), ("startupFailed", .bool s.startupFailed), ("startupRaised", .bool s.startupRaised),
     ("cleanupBegun", .bool s.cleanupBegun), ("rootFailed", .bool s.rootFailed),
     ("t0", optNat s.t0), ("exitAt", optNat s.exitAt),
     ("result", match s.result with | some r => .str (resName r) | none => .null),
